@@ -159,6 +159,7 @@ def make_object(built: Built, obj):
     """obj spec {field: json value | ABSENT} -> instance of the outer class"""
     ms = built.ms
     kw = {}
+    obj = json.loads(json.dumps(obj))  # fresh objects: a value equal to a default must not be identical to it
     for f in ms["fields"]:
         v = obj[f["n"]]
         if v == ABSENT and f["p"] == "nr":
